@@ -805,7 +805,7 @@ func c07WSCancel(tier string, seed int64, idx int, c c07Case, res *core.Result) 
 func c02HTTPSlowReceiver(tier string, seed int64, idx, j int, res *core.Result) {
 	burst := 5 + j%4
 	kind := []string{"server", "bidi"}[j%2]
-	res.Sample = map[string]any{"family": "http-slow-receiver", "kind": kind, "burst": burst, "one_message_of_5MiB": j%2 == 1}
+	res.Sample = map[string]any{"family": "http-slow-receiver", "kind": kind, "burst": burst, "one_message_of_5MiB": j%2 == 1 && j%4 != 3, "http_response_lost_after_delivery": j%4 == 3}
 	res.Retire, res.NonTrivial, res.Evals = true, true, 1
 	setGMP([]int{4, 16}[j%2])
 	ctx, cancel := context.WithTimeout(context.Background(), 90*time.Second)
@@ -821,14 +821,32 @@ func c02HTTPSlowReceiver(tier string, seed int64, idx, j int, res *core.Result) 
 	srv.RegisterService(&svc.Desc, impl)
 	gS := goat.NewGoatOverHttp(func(id string, rw goat.RpcReadWriter) { go srv.Serve(ctx, rw) }, ident, goat.WithClock(fc))
 	gC := goat.NewGoatOverHttp(func(id string, rw goat.RpcReadWriter) {}, ident, goat.WithClock(fc))
-	tsS.Config.Handler, tsC.Config.Handler = gS, gC
+	// every fourth case: the HTTP response of the third POST towards the caller is lost after the
+	// envelope was handed over (the connection breaks before the answer): nothing may arrive twice
+	lossy := j%4 == 3
+	var posts atomic.Int32
+	tsS.Config.Handler = gS
+	tsC.Config.Handler = http.HandlerFunc(func(w http.ResponseWriter, r *http.Request) {
+		gC.ServeHTTP(w, r)
+		if lossy && posts.Add(1) == 3 {
+			panic(http.ErrAbortHandler)
+		}
+	})
 	tsS.Start()
 	tsC.Start()
-	defer func() { cancel(); gS.Cancel(); gC.Cancel(); tsS.Close(); tsC.Close() }()
+	defer func() {
+		cancel()
+		gS.Cancel()
+		gC.Cancel()
+		// (in the background: httptest's Close waits for requests still in progress, and a POST the
+		// scenario left undelivered never ends; the child process is retired after the case anyway)
+		go func() { tsS.CloseClientConnections(); tsS.Close() }()
+		go func() { tsC.CloseClientConnections(); tsC.Close() }()
+	}()
 	var sendErr atomic.Value
 	handlerDone := make(chan struct{})
 	tag := fmt.Sprintf("hsr%d", idx)
-	big := j%2 == 1 // one message of 5 MiB in the middle of the burst
+	big := j%2 == 1 && j%4 != 3 // one message of 5 MiB in the middle of the burst
 	msg := func(i int) []byte {
 		if big && i == 1 {
 			return append([]byte("m1"), bytes.Repeat([]byte{'x'}, 5<<20)...)
@@ -855,10 +873,24 @@ func c02HTTPSlowReceiver(tier string, seed int64, idx, j int, res *core.Result) 
 		return nil
 	})
 	cc := goat.NewClientConn(gC.NewConnection(srvAddr), cliAddr, srvAddr)
-	st, err := svc.Open(ctx, cc, kind, tag, []byte("q"))
+	sctx, scancel := context.WithCancel(ctx)
+	defer scancel()
+	st, err := svc.Open(sctx, cc, kind, tag, []byte("q"))
 	if err != nil {
 		res.Verdict, res.Note = core.Inconclusive, "open over HTTP failed: "+err.Error()
 		return
+	}
+	if lossy {
+		// the server's connection ends when its POST fails; the HTTP transport gives the caller no
+		// sign of that, so the caller gives up once the handler is gone
+		go func() {
+			select {
+			case <-handlerDone:
+				time.Sleep(300 * time.Millisecond)
+			case <-time.After(20 * time.Second):
+			}
+			scancel()
+		}()
 	}
 	// the caller is busy elsewhere: the burst backs up into the transport, and time passes there
 	time.Sleep(500 * time.Millisecond)
@@ -888,6 +920,20 @@ func c02HTTPSlowReceiver(tier string, seed int64, idx, j int, res *core.Result) 
 	case <-handlerDone:
 	case <-time.After(10 * time.Second):
 		res.Verdict, res.Note = core.Inconclusive, "handler did not finish within 10 s"
+		return
+	}
+	if lossy {
+		// the stream may well fail; what arrived must be the first messages, once each, in order
+		ok := len(got) <= burst
+		for i := 0; ok && i < len(got); i++ {
+			ok = got[i] == short(msg(i))
+		}
+		if !ok {
+			res.Violate("caller-sequence-differs/http-response-lost", "the HTTP response of one POST was lost after delivery: the caller received [%s] - a message arrived twice or out of order", strings.Join(got, ","))
+		} else {
+			res.Stat("http_slow_receiver_cases", 1)
+			res.Stat("http_response_lost_cases", 1)
+		}
 		return
 	}
 	if e := sendErr.Load(); e != nil {
@@ -1069,7 +1115,15 @@ func c07HTTPCancel(tier string, seed int64, idx int, c c07Case, res *core.Result
 	tsC.Config.Handler = gC
 	tsS.Start()
 	tsC.Start()
-	defer func() { cancel(); gS.Cancel(); gC.Cancel(); tsS.Close(); tsC.Close() }()
+	defer func() {
+		cancel()
+		gS.Cancel()
+		gC.Cancel()
+		// (in the background: httptest's Close waits for requests still in progress, and a POST the
+		// scenario left undelivered never ends; the child process is retired after the case anyway)
+		go func() { tsS.CloseClientConnections(); tsS.Close() }()
+		go func() { tsC.CloseClientConnections(); tsC.Close() }()
+	}()
 	var entered, ctxDone atomic.Bool
 	impl.DefS = func(tag, kind string, ss grpc.ServerStream) error {
 		if ss.RecvMsg(new(svc.BV)) == nil {
